@@ -222,7 +222,8 @@ def main(argv=None):
                                        "violation": res["violation"], "digest": res["digest"],
                                        "hashseed": res.get("hashseed")})
             print(line)
-        elif k.get("status") == "fixed" and k.get("property") == prop and k.get("replay"):
+        elif (k.get("status") == "fixed" and k.get("property") == prop and k.get("replay")
+              and not os.environ.get("VERIF_SKIP_REGRESSION_REPLAYS")):  # (self-tests of the search alone set this)
             # the recorded history of a repaired defect: it must hold now, and is a violation if it ever fails again
             rp = os.path.join(ROOT, k["replay"])
             _, res = replay_file(rp)
